@@ -181,7 +181,8 @@ def _diff(got, exp, path="result", tol=TOL):
         else:
             with np.errstate(invalid="ignore"):
                 err = np.abs(g - exp)
-                bad = np.argwhere(~(err <= tol * (1 + np.abs(exp))) & ~np.isnan(exp))
+                # (entries that overflow to the same infinity on both sides are equal; NaN in the spec = unconstrained value)
+                bad = np.argwhere(~(err <= tol * (1 + np.abs(exp))) & ~np.isnan(exp) & ~(g == exp))
         if len(bad):
             i = tuple(int(v) for v in bad[0])
             return [(path, f"{len(bad)} element(s) differ, e.g. at {i}: native {g[i]!r} vs spec {exp[i]!r}")]
